@@ -36,14 +36,27 @@ Print Assumptions C02_history_independent.
 
 (* ... and only then: each of the three statements alone breaks it *)
 Theorem C02_predict_pure_iff : forall cfg, C02_predict_pure_statement cfg <->
-  (assigns_back cfg = false /\ appends_warning cfg = false /\ extends_features cfg = false).
+  (assigns_back cfg = false /\ appends_warning cfg = false /\ extends_features cfg = false /\ writes_other_state cfg = false).
 Proof. exact predict_pure_iff. Qed.
 Print Assumptions C02_predict_pure_iff.
 
 Theorem C02_history_independent_iff : forall cfg, C02_history_independent_statement cfg <->
-  (assigns_back cfg = false /\ extends_features cfg = false).
+  (assigns_back cfg = false /\ extends_features cfg = false /\ writes_other_state cfg = false).
 Proof. exact history_independent_iff. Qed.
 Print Assumptions C02_history_independent_iff.
+
+(* a cache or any other state outside the document that the fitted-predict path writes (seeded change C02-6: a lookup of
+   repaired tables keyed by the month/day combinations only): to_json() stays the same, but neither statement survives *)
+Definition memo_cfg : hcfg :=
+  {| assigns_back := false; appends_warning := false; extends_features := false; writes_other_state := true |}.
+Theorem C02_unmodelled_state_write_refuted :
+  ~ C02_predict_pure_statement memo_cfg /\ ~ C02_history_independent_statement memo_cfg.
+Proof.
+  split; intros H.
+  - apply C02_predict_pure_iff in H. destruct H as (_ & _ & _ & H). discriminate.
+  - apply C02_history_independent_iff in H. destruct H as (_ & _ & H). discriminate.
+Qed.
+Print Assumptions C02_unmodelled_state_write_refuted.
 
 (* the code as found (all three present) violates both; the witnesses: a table learned for January and February, a
    January week predicted first, then January+February without observed usage (the February label is forward-filled
@@ -54,8 +67,8 @@ Print Assumptions C02_predict_pure_ascoded_refuted.
 
 Theorem C02_history_independent_ascoded_refuted :
   snd (predict_step ascoded_cfg w_fill (hrun ascoded_cfg w_state [HPredict w_jan w_fill]) w_janfeb) =
-    HPred 3 [((1, 0), Some 0); ((2, 0), Some 0)]%Z /\
-  snd (predict_step ascoded_cfg w_fill w_state w_janfeb) = HPred 3 [((1, 0), Some 0); ((2, 0), Some 1)]%Z /\
+    HPred 3 [((1, 0), Some 0); ((2, 0), Some 0)]%Z 0%Z /\
+  snd (predict_step ascoded_cfg w_fill w_state w_janfeb) = HPred 3 [((1, 0), Some 0); ((2, 0), Some 1)]%Z 0%Z /\
   clusters (hrun ascoded_cfg w_state [HPredict w_jan w_fill]) = [((1, 0), Some 0)]%Z /\
   ~ C02_history_independent_statement ascoded_cfg.
 Proof.
@@ -66,13 +79,13 @@ Print Assumptions C02_history_independent_ascoded_refuted.
 
 (* what every configuration satisfies: a reporting set that covers exactly the fitted (month, day) combinations
    (a full year), without a GHI column the model ignores and without a new supplemental column, leaves the model alone *)
-Theorem C02_predict_covering_partial : forall cfg fill s d, covers s d -> next_state cfg fill s d = s.
+Theorem C02_predict_covering_partial : forall cfg fill s d, writes_other_state cfg = false -> covers s d -> next_state cfg fill s d = s.
 Proof. exact covering_next_state. Qed.
 Print Assumptions C02_predict_covering_partial.
 
 (* the warning list alone does not influence later predictions *)
 Theorem C02_history_independent_partial : forall cfg s ops d fill,
-  assigns_back cfg = false -> extends_features cfg = false ->
+  assigns_back cfg = false -> extends_features cfg = false -> writes_other_state cfg = false ->
   snd (predict_step cfg fill (hrun cfg s ops) d) = snd (predict_step cfg fill s d).
 Proof. exact history_independent_guarded. Qed.
 Print Assumptions C02_history_independent_partial.
@@ -256,7 +269,7 @@ Print Assumptions C02_fit_lists_agree_with_gate.
 (* a fitted table of 2 months x 2 days; a reporting set covering it is `covers`; a January week is not *)
 Definition ex_state : hstate :=
   {| clusters := [((1, 0), Some 0); ((1, 5), Some 1); ((2, 0), Some 0); ((2, 5), Some 2)]%Z;
-     ts_features := [TEMPERATURE]; warnings := [5%Z] |}.
+     ts_features := [TEMPERATURE]; warnings := [5%Z]; hidden := 0%Z |}.
 Definition ex_full : dsum :=
   {| ds_id := 9; ds_combos := [(1, 0); (1, 5); (2, 0); (2, 5)]%Z; ds_observed := true; ds_columns := [TEMPERATURE];
      ds_supp := []; ds_late_exc := false |}.
@@ -271,9 +284,9 @@ Example C02_nonvacuous_hourly :
      the one known cell, the GHI warning is appended; the pure configuration computes the same prediction and keeps the model *)
   next_state ascoded_cfg w_fill ex_state ex_week =
     {| clusters := [((1, 0), Some 1); ((1, 5), Some 1); ((3, 0), Some 1); ((3, 5), Some 1)]%Z;
-       ts_features := [TEMPERATURE]; warnings := [5; MISMATCH_WARNING]%Z |} /\
+       ts_features := [TEMPERATURE]; warnings := [5; MISMATCH_WARNING]%Z; hidden := 0%Z |} /\
   next_state pure_cfg w_fill ex_state ex_week = ex_state /\
-  predict_out ascoded_cfg w_fill ex_state ex_week = HPred 8 [((1, 5), Some 1); ((3, 0), Some 1)]%Z /\
+  predict_out ascoded_cfg w_fill ex_state ex_week = HPred 8 [((1, 5), Some 1); ((3, 0), Some 1)]%Z 0%Z /\
   predict_out pure_cfg w_fill ex_state ex_week = predict_out ascoded_cfg w_fill ex_state ex_week.
 Proof.
   split.
